@@ -68,11 +68,11 @@ PLAN["C01"] = dict(
           "was reached (scope/corpus cases: at least one schedule suspended and the full input is definitive); distinct = "
           "different canonical case JSON (hash) / enumerated strings are distinct by construction"),
     quick=[
-        dict(kind="enum", test="TestC01Scope|TestC01Corpus", solo=True, timeout=900),
+        dict(kind="enum", test="TestC01Scope|TestC01Corpus|TestC01Large", solo=True, timeout=900),
         dict(test="TestC01Rapid", checks=15000, shards=8, counts=["C01.msg"]),
     ],
     thorough=[
-        dict(kind="enum", test="TestC01Scope|TestC01Corpus", solo=True, timeout=3000, env={"VERIF_DEPTH": 1}),
+        dict(kind="enum", test="TestC01Scope|TestC01Corpus|TestC01Large", solo=True, timeout=3000, env={"VERIF_DEPTH": 1}),
         dict(test="TestC01Rapid", checks=60000, shards=16, counts=["C01.msg"], timeout=3000),
     ],
 )
@@ -135,14 +135,14 @@ PLAN["C04"] = dict(
           "interleaving); non-trivial = the call consumed >= 8 bytes or returned a non-error verdict (isolation: >= 2 streams); "
           "distinct by case hash; enumerated strings distinct by construction"),
     quick=[
-        dict(kind="enum", test="TestC04Scope|TestC04Enum", solo=True, timeout=900),
+        dict(kind="enum", test="TestC04Scope|TestC04Enum|TestC04Large", solo=True, timeout=900),
         dict(test="TestC04StreamRapid", checks=8000, shards=4, counts=["C04.stream"]),
         dict(test="TestC04APIRapid", checks=8000, shards=3, counts=["C04.api"]),
         dict(test="TestC04IsoRapid", checks=1500, shards=3, counts=["C04.iso"], race=True),
         dict(test="TestC04IsoAPIRapid", checks=1500, shards=2, counts=["C04.isoapi"], race=True),
     ],
     thorough=[
-        dict(kind="enum", test="TestC04Scope|TestC04Enum", solo=True, timeout=3000, env={"VERIF_DEPTH": 1, "VERIF_C04_IP6LEN": 10}),
+        dict(kind="enum", test="TestC04Scope|TestC04Enum|TestC04Large", solo=True, timeout=3000, env={"VERIF_DEPTH": 1, "VERIF_C04_IP6LEN": 10}),
         dict(test="TestC04StreamRapid", checks=100000, shards=6, counts=["C04.stream"], timeout=3000),
         dict(test="TestC04APIRapid", checks=100000, shards=4, counts=["C04.api"], timeout=3000),
         dict(test="TestC04IsoRapid", checks=15000, shards=4, counts=["C04.iso"], race=True, timeout=3000),
